@@ -4,6 +4,7 @@ of the member datasets are dataset scale × one common value per label and align
 -/
 import GlotaranProofs.Lemmas.C14Full
 import GlotaranProofs.Lemmas.C02Align
+import GlotaranProofs.Lemmas.C14Align
 namespace Glotaran.C14
 open Glotaran.LinAlg Glotaran.C02
 
@@ -171,37 +172,91 @@ structure LinkedMember where
 
 def LinkedMember.dataset (m : LinkedMember) : Dataset := m.sd.toDataset m.data
 
-/-- a linked group of noise-free simulated, unweighted datasets whose generating clps are, per label
-    and aligned global point, `dataset scale × one common value F` -/
+/-- a linked group of noise-free simulated datasets (weighted or not) whose generating clps are, per
+    label and aligned global point, `dataset scale × one common value F`.  `aligned` is what
+    `alignAxes` returns for the members' global axes (its shape is proved, not assumed:
+    `LinkedAtTruth.alignedLen/alignedRow`). -/
 structure LinkedAtTruth (g : Group) (ms : List LinkedMember) (aligned : List (List Rat))
     (F : Rat → String → Rat) : Prop where
   linked : g.linked = true
   datasets : g.datasets = ms.map (·.dataset)
   ok : ∀ m ∈ ms, SimOK m.sd m.lm m.ls m.rows
   sim : ∀ m ∈ ms, noiseless m.sd.inp = .ok m.data
-  noWeight : ∀ m ∈ ms, m.sd.weight = none
+  /-- every member has at least one point on its model axis -/
+  nonempty : ∀ m ∈ ms, m.sd.inp.nModel ≠ 0
+  /-- a weight has one row per model-axis point -/
+  weightShape : ∀ m ∈ ms, ∀ w, m.sd.weight = some w → w.length = m.sd.inp.nModel
   nodup : ∀ m ∈ ms, m.lm.labels.Nodup
-  sliceLabels : ∀ m ∈ ms, ∀ i, i < m.sd.inp.nGlobal →
-    ((slices m.lm m.sd.inp.nGlobal).getD i default).labels = m.lm.labels
   alignment : alignAxes (g.datasets.map (·.globalAxis)) g.tol g.method = some aligned
-  alignedRow : ∀ k (hk : k < ms.length) (hk' : k < aligned.length), aligned[k].length = ms[k].sd.inp.nGlobal
   common : ∀ k (hk : k < ms.length) (hk' : k < aligned.length) i (hi : i < aligned[k].length),
     ∀ l ∈ ms[k].lm.labels,
       lookup ms[k].ls (ms[k].rows.getD i []) l = ms[k].sd.scale.getD 1 * F (aligned[k][i]) l
 
-/-- one member's data column is its scaled matrix applied to the common values of its labels -/
-theorem member_column (m : LinkedMember) (hok : SimOK m.sd m.lm m.ls m.rows)
-    (hsim : noiseless m.sd.inp = .ok m.data) (hw : m.sd.weight = none) (i : Nat) (hi : i < m.sd.inp.nGlobal)
+theorem LinkedAtTruth.alignedLen {g ms aligned F} (H : LinkedAtTruth g ms aligned F) :
+    aligned.length = ms.length := by
+  have := (alignAxes_shape _ _ _ _ H.alignment).1
+  simpa [H.datasets] using this
+
+/-- **the aligned axis of member `k` has one entry per global point of the member** (from the C02
+    model of `create_aligned_global_axes`) -/
+theorem LinkedAtTruth.alignedRow {g ms aligned F} (H : LinkedAtTruth g ms aligned F)
+    (k : Nat) (hk : k < ms.length) (hk' : k < aligned.length) :
+    aligned[k].length = ms[k].sd.inp.nGlobal := by
+  have h2 : k < (g.datasets.map (·.globalAxis)).length := by simpa [H.datasets] using hk
+  have := (alignAxes_shape _ _ _ _ H.alignment).2 k hk' h2
+  rw [this]
+  simp only [H.datasets, List.getElem_map, LinkedMember.dataset, SimDataset.toDataset]
+  exact ((H.ok ms[k] (List.getElem_mem hk)).axis).symm
+
+/-- a slice that is not the empty default carries the labels of the dataset matrix -/
+theorem slice_labels (lm : LMat) (n i : Nat) (h : (sliceM lm n i).length ≠ 0) :
+    ((slices lm n).getD i default).labels = lm.labels := by
+  unfold sliceM slices at h
+  unfold slices
+  cases hb : lm.body with
+  | d2 m =>
+    simp only [hb] at h ⊢
+    by_cases hi : i < n
+    · simp [List.getD_eq_getElem?_getD, List.getElem?_replicate_of_lt hi]
+    · exfalso
+      apply h
+      have : ∀ x : LMat2, (List.replicate n x)[i]? = none := by
+        intro x; simp; omega
+      simp [List.getD_eq_getElem?_getD, this]
+      rfl
+  | d3 ms =>
+    simp only [hb] at h ⊢
+    by_cases hi : i < ms.length
+    · simp [List.getD_eq_getElem?_getD, hi]
+    · exfalso
+      apply h
+      have h1 : ms[i]? = none := by simp; omega
+      simp [List.getD_eq_getElem?_getD, h1]
+      rfl
+
+theorem member_data_length (m : LinkedMember) (hok : SimOK m.sd m.lm m.ls m.rows)
+    (hsim : noiseless m.sd.inp = .ok m.data) : m.data.length = m.sd.inp.nModel := by
+  rw [noiseless_ok m.sd m.lm m.ls m.rows hok m.data hsim]
+  exact C03.ofColumns_length _ _
+
+/-- column `i` of the (unweighted) simulated data -/
+theorem data_col_raw (sd : SimDataset) (lm : LMat) (ls : List String) (rows : List Vec)
+    (ok : SimOK sd lm ls rows) (data : Mat) (hsim : noiseless sd.inp = .ok data) (i : Nat)
+    (hi : i < sd.inp.nGlobal) : col data i = mulVec (sliceM lm sd.inp.nGlobal i) (sel lm ls rows i) := by
+  rw [noiseless_ok sd lm ls rows ok data hsim]
+  have hlen : i < (simCols lm sd.inp.nGlobal ls rows).length := by simpa [simCols] using hi
+  rw [col_ofColumns _ _ i hlen (by rw [simCols_getElem _ _ _ _ _ hi, mulVec_length]; exact ok.nrows i hi)]
+  exact simCols_getElem _ _ _ _ _ hi
+
+/-- one member's unweighted data column is its scaled matrix applied to the common values of its labels -/
+theorem member_column_raw (m : LinkedMember) (hok : SimOK m.sd m.lm m.ls m.rows)
+    (hsim : noiseless m.sd.inp = .ok m.data) (i : Nat) (hi : i < m.sd.inp.nGlobal)
     (φ : String → Rat)
     (hφ : ∀ l ∈ m.lm.labels, lookup m.ls (m.rows.getD i []) l = m.sd.scale.getD 1 * φ l) :
-    col m.dataset.weightedData i =
+    col m.data i =
       mulVec (mscale (m.sd.scale.getD 1) (sliceM m.lm m.sd.inp.nGlobal i)) (m.lm.labels.map φ) := by
-  have h := data_column m.sd m.lm m.ls m.rows hok m.data hsim i hi
-  unfold LinkedMember.dataset
-  rw [h]
-  unfold prepared truthAt
-  rw [hw]
-  simp only
+  rw [data_col_raw m.sd m.lm m.ls m.rows hok m.data hsim i hi,
+    ← mulVec_mscale_inv (m.sd.scale.getD 1) hok.scale]
   congr 1
   simp only [sel, selectByLabel, vscale, List.map_map]
   apply List.map_congr_left
@@ -210,11 +265,61 @@ theorem member_column (m : LinkedMember) (hok : SimOK m.sd m.lm m.ls m.rows)
   rw [hφ l hl]
   field_simp [hok.scale]
 
+theorem zipWith_mul_ones (v : Vec) (n : Nat) (h : v.length ≤ n) :
+    List.zipWith (· * ·) v (List.replicate n 1) = v := by
+  induction v generalizing n with
+  | nil => simp
+  | cons x v ih =>
+    cases n with
+    | zero => simp at h
+    | succ n =>
+      simp only [List.replicate_succ, List.zipWith_cons_cons, mul_one]
+      rw [ih n (by simpa using h)]
+
+/-- the weight column the linked provider stacks for a member: its own weight, or ones -/
+def memberWeight (d : Dataset) (i : Nat) : Vec :=
+  match d.weight with
+  | some w => col w i
+  | none => List.replicate d.nModel 1
+
+/-- **one member's weighted data column is its scaled matrix applied to the common values, times the
+    stacked weight column** (ones for an unweighted member) -/
+theorem member_column (m : LinkedMember) (hok : SimOK m.sd m.lm m.ls m.rows)
+    (hsim : noiseless m.sd.inp = .ok m.data)
+    (hws : ∀ w, m.sd.weight = some w → w.length = m.sd.inp.nModel) (i : Nat) (hi : i < m.sd.inp.nGlobal)
+    (φ : String → Rat)
+    (hφ : ∀ l ∈ m.lm.labels, lookup m.ls (m.rows.getD i []) l = m.sd.scale.getD 1 * φ l) :
+    col m.dataset.weightedData i = List.zipWith (· * ·)
+      (mulVec (mscale (m.sd.scale.getD 1) (sliceM m.lm m.sd.inp.nGlobal i)) (m.lm.labels.map φ))
+      (memberWeight m.dataset i) ∧
+    (mulVec (mscale (m.sd.scale.getD 1) (sliceM m.lm m.sd.inp.nGlobal i)) (m.lm.labels.map φ)).length =
+      (memberWeight m.dataset i).length := by
+  have hraw := member_column_raw m hok hsim i hi φ hφ
+  have hlen : (mulVec (mscale (m.sd.scale.getD 1) (sliceM m.lm m.sd.inp.nGlobal i)) (m.lm.labels.map φ)).length =
+      m.sd.inp.nModel := by
+    rw [mulVec_length, Length.rows_mscale]; exact hok.nrows i hi
+  have hdl := member_data_length m hok hsim
+  have hwd : m.dataset.weight = m.sd.weight := rfl
+  have hdd : m.dataset.data = m.data := rfl
+  unfold Dataset.weightedData memberWeight
+  rw [hwd, hdd]
+  cases hw : m.sd.weight with
+  | none =>
+    simp only
+    have hn : m.dataset.nModel = m.sd.inp.nModel := by simp [Dataset.nModel, hdd, hdl]
+    rw [hn]
+    refine ⟨?_, by simp [hlen]⟩
+    rw [zipWith_mul_ones _ _ (by rw [hlen]), hraw]
+  | some w =>
+    simp only
+    refine ⟨by rw [col_hadamard, hraw], ?_⟩
+    rw [hlen, Length.len_col, hws w hw]
+
 theorem linkedProblems_consistent (g : Group) (ms : List LinkedMember) (aligned : List (List Rat))
     (F : Rat → String → Rat) (H : LinkedAtTruth g ms aligned F) (axis : List Rat) (ps : List IndexProblem)
     (h : linkedProblems {} g = some (axis, ps)) :
-    ∀ p ∈ ps, ∃ v, (∀ r ∈ p.reduced.m, r.length = p.fullLabels.length) ∧
-      p.data = mulVec p.reduced.m (p.fullLabels.map (F v)) := by
+    ∀ p ∈ ps, (∀ r ∈ p.reduced.m, r.length = p.fullLabels.length) ∧
+      p.data = mulVec p.reduced.m (p.fullLabels.map (F p.x)) := by
   unfold linkedProblems at h
   rw [H.alignment] at h
   have hdms : g.datasets.mapM (fun d => (datasetMatrix d.mcs).map (fun lm => (d, lm))) =
@@ -224,19 +329,12 @@ theorem linkedProblems_consistent (g : Group) (ms : List LinkedMember) (aligned 
     intro m hm
     have : datasetMatrix m.dataset.mcs = some m.lm := (H.ok m hm).matrix
     simp [this]
-  have hany : g.datasets.any (fun d => d.weight.isSome) = false := by
-    rw [H.datasets]
-    simp only [List.any_map, List.any_eq_false]
-    intro m hm
-    have : m.dataset.weight = none := H.noWeight m hm
-    simp [this]
-  simp only [hdms, hany, Bool.false_and, Bool.false_eq_true, if_false, Option.some.injEq, Prod.mk.injEq] at h
+  simp only [hdms, Option.some.injEq, Prod.mk.injEq] at h
   obtain ⟨_, hps⟩ := h
   subst hps
   intro p hp
   simp only [List.mem_map] at hp
   obtain ⟨v, _, rfl⟩ := hp
-  refine ⟨v, ?_⟩
   simp only [reduceAt_empty]
   -- the members at `v`
   generalize hmem : ((ms.map (fun m => (m.dataset, m.lm))).zip aligned).filterMap
@@ -274,7 +372,7 @@ theorem linkedProblems_consistent (g : Group) (ms : List LinkedMember) (aligned 
       simp [LinkedMember.dataset, Dataset.nGlobal, SimDataset.toDataset, (H.ok m hm).axis]
     rw [he1]
     simp only [hng]
-    have hl := H.sliceLabels m hm e.2 hi
+    have hl := slice_labels m.lm m.sd.inp.nGlobal e.2 (by rw [(H.ok m hm).nrows e.2 hi]; exact H.nonempty m hm)
     have : (slices m.lm m.sd.inp.nGlobal).getD e.2 default = ⟨m.lm.labels, sliceM m.lm m.sd.inp.nGlobal e.2⟩ := by
       rw [← hl]; rfl
     rw [this]
@@ -298,15 +396,74 @@ theorem linkedProblems_consistent (g : Group) (ms : List LinkedMember) (aligned 
     obtain ⟨m, hm, hi, hb'⟩ := hblock e he
     rw [hb']; exact (H.ok m hm).width e.2 hi
   obtain ⟨hmul, hwidth⟩ := mulVec_alignMatrices _ (F v) hnd hwd
-  refine ⟨hwidth, ?_⟩
-  rw [hmul, List.flatMap_map]
-  apply List.flatMap_congr
-  intro e he
-  obtain ⟨m, hm, he1, hi, hφ⟩ := hgood e he
-  rw [hblk e m hm he1 hi]
-  simp only
-  rw [he1]
-  exact member_column m (H.ok m hm) (H.sim m hm) (H.noWeight m hm) e.2 hi (F v) hφ
+  -- every member's column, with its stacked weight column
+  have hcol : ∀ e ∈ mem, col e.1.1.weightedData e.2 = List.zipWith (· * ·)
+      (mulVec (mscale (e.1.1.scale.getD 1) ((slices e.1.2 e.1.1.nGlobal).getD e.2 default).m)
+        (((slices e.1.2 e.1.1.nGlobal).getD e.2 default).labels.map (F v)))
+      (memberWeight e.1.1 e.2) ∧
+      (mulVec (mscale (e.1.1.scale.getD 1) ((slices e.1.2 e.1.1.nGlobal).getD e.2 default).m)
+        (((slices e.1.2 e.1.1.nGlobal).getD e.2 default).labels.map (F v))).length =
+        (memberWeight e.1.1 e.2).length := by
+    intro e he
+    obtain ⟨m, hm, he1, hi, hφ⟩ := hgood e he
+    have hb := hblk e m hm he1 hi
+    have hb1 := congrArg Prod.fst hb
+    have hb2 := congrArg Prod.snd hb
+    simp only at hb1 hb2
+    rw [hb1, hb2, he1]
+    exact member_column m (H.ok m hm) (H.sim m hm) (H.weightShape m hm) e.2 hi (F v) hφ
+  have hdata : mem.flatMap (fun di => col di.1.1.weightedData di.2) = List.zipWith (· * ·)
+      (mulVec (alignMatrices (mem.map (fun e => ((slices e.1.2 e.1.1.nGlobal).getD e.2 default, e.1.1.scale.getD 1)))).m
+        ((alignMatrices (mem.map (fun e => ((slices e.1.2 e.1.1.nGlobal).getD e.2 default, e.1.1.scale.getD 1)))).labels.map (F v)))
+      (mem.flatMap (fun di => memberWeight di.1.1 di.2)) := by
+    rw [hmul, List.flatMap_map, zipWith_mul_flatMap _ _ _ (fun e he => (hcol e he).2)]
+    apply List.flatMap_congr
+    intro e he
+    exact (hcol e he).1
+  split
+  · -- a weight among the members: rows of the stacked matrix are weighted
+    refine ⟨rows_weightRows_width _ _ _ hwidth, ?_⟩
+    simp only
+    rw [mulVec_weightRows]
+    exact hdata
+  · -- no weight among the members at `v`: the stacked weight column is all ones
+    rename_i hnw
+    refine ⟨hwidth, ?_⟩
+    rw [hdata]
+    have hones : ∀ e ∈ mem, e.1.1.weight = none := by
+      intro e he
+      by_cases hany : (mem.any fun di => di.1.1.weight.isSome) = true
+      · have hgany : g.datasets.any (fun d => d.weight.isSome) = true := by
+          rw [List.any_eq_true] at hany ⊢
+          obtain ⟨e', he', hw'⟩ := hany
+          obtain ⟨m, hm, he1, _, _⟩ := hgood e' he'
+          refine ⟨m.dataset, ?_, by rw [he1] at hw'; exact hw'⟩
+          rw [H.datasets]; exact List.mem_map.2 ⟨m, hm, rfl⟩
+        simp [hgany, hany] at hnw
+      · have hall : ∀ x ∈ mem, x.1.1.weight.isSome = false := by
+          simpa [List.any_eq_true] using hany
+        have := hall e he
+        cases hw : e.1.1.weight with
+        | none => rfl
+        | some w => simp [hw] at this
+    have hl2 : (mem.flatMap (fun di => memberWeight di.1.1 di.2)) =
+        List.replicate (mem.flatMap (fun di => memberWeight di.1.1 di.2)).length 1 := by
+      apply List.eq_replicate_iff.mpr
+      refine ⟨rfl, ?_⟩
+      intro x hx
+      simp only [List.mem_flatMap] at hx
+      obtain ⟨e, he, hxe⟩ := hx
+      simp only [memberWeight, hones e he, List.mem_replicate] at hxe
+      exact hxe.2
+    rw [hl2]
+    apply zipWith_mul_ones
+    rw [hmul, List.flatMap_map]
+    simp only [List.length_flatMap]
+    apply Nat.le_of_eq
+    congr 1
+    apply List.map_congr_left
+    intro e he
+    exact (hcol e he).2
 
 end Glotaran.C14
 
@@ -336,19 +493,19 @@ theorem linkedGroup_sim (g : Group) (ms : List LinkedMember) (aligned : List (Li
       simp only [List.mem_flatMap] at hx
       obtain ⟨pc, hpc, hxr⟩ := hx
       obtain ⟨p, hp, hfp⟩ := mapM_some_mem _ ps sols hs pc hpc
-      obtain ⟨v, hw, hd⟩ := hcons p hp
+      obtain ⟨hw, hd⟩ := hcons p hp
       cases hsol : solveLS g.solver p.reduced.m p.data with
       | none => simp [hsol] at hfp
       | some cr =>
         simp only [hsol, Option.map_some, Option.some.injEq] at hfp
         subst hfp
         rw [hd] at hsol
-        have := (consistent_problem g.solver p.reduced.m p.fullLabels.length hw (p.fullLabels.map (F v))
+        have := (consistent_problem g.solver p.reduced.m p.fullLabels.length hw (p.fullLabels.map (F p.x))
           (by simp) (fun hs' => by
             intro y hy
             simp only [List.mem_map] at hy
             obtain ⟨l, _, rfl⟩ := hy
-            exact hnn hs' v l) cr.1 cr.2 hsol).1
+            exact hnn hs' p.x l) cr.1 cr.2 hsol).1
         exact this x hxr
 
 end Glotaran.C14
